@@ -98,18 +98,27 @@ class C15(Property):
             for b in small:
                 script = [rng.choice(SCRIPT_OPS) for _ in range(4)]
                 res.append(("exhaustive", "G %s / %s | %s" % (" ".join(a), " ".join(b), " ".join(script))))
+        # the same pairs with all child hashes forced to collide (mask 0) or nearly so (mask 3): equality must not rest on the hash
+        small4 = G.enum_balanced(4 if tier == "quick" else 5)
+        for a in small4:
+            for b in small4:
+                for m in ("m0", "m3"):
+                    res.append(("exhaustive", "G %s %s / %s | len" % (m, " ".join(a), " ".join(b))))
         nrand = 1500 if tier == "quick" else 30000
         for i in range(nrand):
             a = G.rand_tree_events(rng, rng.choice([5, 15, 50, 200]), wide=rng.chance(1, 2))
             b = list(a) if rng.chance(1, 3) else mutate(rng, a)
             script = [rng.choice(SCRIPT_OPS) for _ in range(rng.choice([3, 8, 20]))]
-            res.append(("random", "G %s / %s | %s" % (" ".join(a), " ".join(b), " ".join(script))))
+            m = rng.choice(["", "", "m0 ", "m3 ", "mff "])
+            res.append(("random", "G %s%s / %s | %s" % (m, " ".join(a), " ".join(b), " ".join(script))))
         return res
 
     def spec(self, case, impl):
         body = case[2:]
         evs, script = body.split(" | ") if " | " in body else (body, "")
         a, b = [x.split(" ") for x in evs.split(" / ")]
+        if a and a[0].startswith("m"):
+            a = a[1:]            # hash mask: the expected outputs do not depend on it
         ta, tb_ = tree_of(a), tree_of(b)
         if ta is None or tb_ is None:
             return None if impl == "BUILD-PANIC" else "expected BUILD-PANIC"
